@@ -50,15 +50,21 @@ class Repo:
                     self.by_line[(m, n.lineno)] = n
                     for d in n.decorator_list:   # co_firstlineno is the first decorator's line
                         self.by_line[(m, d.lineno)] = n
-                    if q in self.qual:           # property setter / overloads: keep the first plain def, index others by line
-                        q = f"{q}@{n.lineno}"
-                    self.qual[q] = n
+                    decos = [ast.unparse(d) for d in n.decorator_list]
+                    if any(d.endswith(".setter") for d in decos):
+                        q = f"{q}.setter"
+                    elif "overload" in decos or "typing.overload" in decos:
+                        q = f"{q}@overload{n.lineno}"        # typing stubs are not the function that runs
+                    self.qual[q] = n                         # a later plain def replaces an earlier one, as in Python
                     self.parents[id(n)] = q
                     walk(n, q + ".<locals>")
                 elif isinstance(n, ast.ClassDef):
                     q = f"{prefix}.{n.name}"
                     self.classes_src[q] = n
                     walk(n, q)
+                elif isinstance(n, ast.If) and "version_info" in ast.unparse(n.test):
+                    arm = ast.Module(body=self._version_arm(n), type_ignores=[])      # only the arm the baseline interpreter takes
+                    walk(arm, prefix)
                 elif isinstance(n, (ast.If, ast.Try, ast.With, ast.For, ast.While)):
                     walk(n, prefix)
         walk(tree, m)
